@@ -13,6 +13,7 @@ import hashlib
 import json
 import os
 import random
+import re
 import subprocess
 import sys
 from pathlib import Path
@@ -51,6 +52,8 @@ SETTINGS = [
 SMOKE_ENVS = [{}, {"TZ": "Asia/Kolkata"}]
 FORMS_ENVS = [{"TZ": "America/New_York"}]
 G_WALL = (2020, 1, 1, 0, 0, 0, 0)
+# the ISO texts model/IsoTime.v parses (what isoformat() prints, ' ' separator and 'Z' included)
+MODEL_TEXT = re.compile(r"^\d{4}-\d\d-\d\d[T ]\d\d:\d\d:\d\d(\.\d{6})?(Z|[+-]\d\d:\d\d(:\d\d(\.\d{6})?)?)?$")
 
 
 # ------------------------------------------------------------------------------------------ observation
@@ -120,6 +123,8 @@ def build_input(spec):
         return build_object(spec)
     if f == "text":
         return spec["text"]
+    if f == "isotext":
+        return spec["text"].encode() if spec.get("bytes") else spec["text"]
     if f == "epoch_int":
         return spec["num"]
     if f == "epoch_float":
@@ -135,6 +140,11 @@ def expected_obs(spec):
         return o[:7] + (0 if o[7] is None else o[7],)
     if f == "text":
         return tuple(spec["wall"]) + (0 if spec["off"] is None else spec["off"],)
+    if f == "isotext":
+        # any spelling the standard reader knows: it means what datetime.fromisoformat says (naive => UTC);
+        # None = not ISO text, must be refused
+        from vf.factgen import c13 as fg
+        return fg.iso_reference(spec["text"])
     n = spec["num"] * 10 ** 6 if f == "epoch_int" else spec["num"][0] * 10 ** 6 + spec["num"][1] * 15625
     return obs(EPOCH + _pydt.timedelta(microseconds=n))
 
@@ -326,13 +336,36 @@ def gen_specs(seed, tier):
         k = rnd.choice([1, 32, 63, rnd.randint(1, 63)])
         if n_ < 253402300799:
             specs.append(dict(form="epoch_float", num=[n_, k], tz=dict(kind="utc")))
+    # ISO text in every spelling fromisoformat knows, and digit-only texts (execution-only: the Coq parser covers the
+    # extended format isoformat() prints; the reference for these is the standard reader on the same text)
+    from vf.factgen import c13 as fg
+    texts = list(fg.DIGIT_TEXTS)
+    for ln in range(1, 15):
+        for _ in range(2 if tier == "quick" else 12):
+            texts.append("".join(rnd.choice("0123456789") for _ in range(ln)))
+    for _ in range(6 if tier == "quick" else 60):      # random valid basic dates
+        w = random_wall(rnd)
+        texts.append("%04d%02d%02d" % w[:3])
+    srcs = [s for s in base if s["form"] == "object"]
+    for s in rnd.sample(srcs, min(len(srcs), 25 if tier == "quick" else 250)):
+        o = obs(build_object(s))
+        texts += fg.iso_spellings(tuple(o[:7]), o[7], rnd, 6 if tier == "quick" else 10)
+    seen_t = set()
+    for t in texts:
+        if t in seen_t:
+            continue
+        seen_t.add(t)
+        ok = fg.iso_reference(t) is not None
+        for as_bytes in (False, True):
+            specs.append(dict(form="isotext", text=t, bytes=as_bytes, ok=ok, tz=dict(kind="text")))
     for i, s in enumerate(specs):
         s["i"] = i
     return specs
 
 
 def spec_key(s):
-    return (s["form"], tuple(s.get("wall") or ()), json.dumps(s.get("tz"), sort_keys=True), s.get("text"), json.dumps(s.get("num")))
+    return (s["form"], tuple(s.get("wall") or ()), json.dumps(s.get("tz"), sort_keys=True), s.get("text"), json.dumps(s.get("num")),
+            bool(s.get("bytes")))
 
 
 def nontrivial(s):
@@ -356,20 +389,27 @@ def make_records(specs):
     G = _pydt.datetime(*G_WALL, tzinfo=UTC)
     recs, fails = {}, []
     for s in specs:
+        want = expected_obs(s)
         try:
             inp = build_input(s)
             if s["form"] == "fieldobject":
                 inp = fieldtypes.datetime(inp)
             r = D(i=s["i"], ts=inp, _generated=G)
         except Exception as e:  # noqa
-            fails.append(dict(kind="coercion", spec=s, got="%s: %s" % (type(e).__name__, e), want=list(expected_obs(s))))
+            if want is not None:
+                fails.append(dict(kind="coercion", spec=s, got="%s: %s" % (type(e).__name__, e), want=list(want)))
             continue
-        got, want = obs(r.ts), expected_obs(s)
+        got = obs_any(r.ts)
+        if want is None:
+            fails.append(dict(kind="coercion", spec=s, got=list(got), want="refusal: not ISO text (the standard datetime.fromisoformat refuses it)"))
+            continue
         if got != want:
             # the wrong value is not written anywhere; it is still compared with the model's reading of the input
             fails.append(dict(kind="coercion", spec=s, got=list(got), want=list(want)))
             continue
         recs[s["i"]] = r
+    # report a text that HAS a meaning and got another one before a text that should merely have been refused
+    fails.sort(key=lambda f: isinstance(f.get("want"), str))
     return recs, fails
 
 
@@ -515,10 +555,13 @@ def legacy_avro_cases(ctx, rnd):
 # ------------------------------------------------------------------------------------------ entry routes
 
 def pick_specs(specs, limit):
-    """a compact subset with every (input form, tz kind, fold/gap class, fold, extreme year) combination"""
+    """a compact subset with every (input form, tz kind, fold/gap class, fold, extreme year) combination
+    (only inputs that have a value: refused texts are covered by the coercion leg)"""
+    specs = [s for s in specs if s.get("ok", True)]
     picked, seen = [], set()
     for s in specs:
-        k = (s["form"], s["tz"]["kind"], s.get("class"), s["tz"].get("fold"), s["wall"][0] in (1, 9999) if s.get("wall") else None)
+        k = (s["form"], s["tz"]["kind"], s.get("class"), s["tz"].get("fold"), s["wall"][0] in (1, 9999) if s.get("wall") else None,
+             s.get("bytes"), len(s["text"]) if s["form"] == "isotext" else None)
         if k not in seen:
             seen.add(k)
             picked.append(s)
@@ -749,6 +792,63 @@ def construction_checks(ctx, specs):
     ctx.coverage["evaluations"] += 0
     ctx.notes.append("construction forms: %d (form, input) cases in-process and under %r, each entered by constructor and by "
                      "assignment, then 4 formats; reference = plain datetime subclass with naive => UTC" % (total, FORMS_ENVS))
+    return fails
+
+
+# ------------------------------------------------------------------------------------------ hand-written JSON lines
+
+def foreign_jsonl_checks(ctx, specs, count=True):
+    """A JSON lines file whose timestamp column holds ISO text in any spelling (as another producer would write it):
+    the reader must give the value the standard reader gives for that text; a text that is not ISO must be refused."""
+    from flow.record import RecordReader
+    from flow.record.jsonpacker import JsonRecordPacker
+    D = descriptor()
+    G = _pydt.datetime(*G_WALL, tzinfo=UTC)
+    jp = JsonRecordPacker()
+    head = jp.pack(D)
+    sub = [s for s in specs if s["form"] == "isotext" and not s.get("bytes")]
+    good = [s for s in sub if s["ok"]][: (300 if ctx.tier == "quick" else 3000)]
+    bad = [s for s in sub if not s["ok"]][: (20 if ctx.tier == "quick" else 100)]
+
+    def line(s):
+        d = json.loads(jp.pack(D(i=s["i"], ts=G, _generated=G)))
+        d["ts"] = s["text"]
+        return json.dumps(d)
+    fails = []
+    path = os.path.join(str(ctx.work), "foreign.jsonl")
+    with open(path, "w") as fp:
+        fp.write(head + "\n" + "".join(line(s) + "\n" for s in good))
+    try:
+        rd = RecordReader(path)
+        got = {int(x.i): obs_any(x.ts) for x in rd}
+        rd.close()
+    except Exception as e:  # noqa
+        got = {}
+        fails.append(dict(kind="foreign-jsonl", spec=good[0], got=["EXC", "%s: %s" % (type(e).__name__, e)], want=[],
+                          why="reading a JSON lines file with %d ISO timestamps raised %s: %s" % (len(good), type(e).__name__, e)))
+    for s in good:
+        want = expected_obs(s)
+        g = got.get(s["i"])
+        if count:
+            ctx.count_case(spec_key(s) + ("foreign-jsonl",), nontrivial=True)
+        if g is not None and tuple(g) != tuple(want):
+            fails.append(dict(kind="foreign-jsonl", spec=s, got=list(g), want=list(want),
+                              why="JSON lines file holding %r: read back %s, the text means %s" % (s["text"], list(g), list(want))))
+    for s in bad:
+        with open(path, "w") as fp:
+            fp.write(head + "\n" + line(s) + "\n")
+        try:
+            rd = RecordReader(path)
+            vals = [obs_any(x.ts) for x in rd]
+            rd.close()
+        except Exception:  # noqa
+            vals = None
+        if count:
+            ctx.count_case(spec_key(s) + ("foreign-jsonl",), nontrivial=True)
+        if vals:
+            fails.append(dict(kind="foreign-jsonl", spec=s, got=list(vals[0]), want="refusal",
+                              why="JSON lines file holding %r (not ISO text): read as %s instead of being refused" % (s["text"], list(vals[0]))))
+    ctx.notes.append("hand-written JSON lines: %d ISO spellings read, %d non-ISO digit texts refused" % (len(good), len(bad)))
     return fails
 
 
@@ -1014,6 +1114,10 @@ def coq_cases(specs, recs, backs, legacy, coerced):
             t = "newobj %s %s (Some %s)" % (coq_dtv(xo), "None" if o0 is None else "(Some %s)" % cz(o0), coq_dtv(o))
         elif f == "text":
             t = "newtext %s (Some %s)" % (cstr(s["text"]), coq_dtv(o))
+        elif f == "isotext":
+            if s.get("bytes") or not MODEL_TEXT.match(s["text"]):
+                continue          # outside the language of model/IsoTime.v: execution-only (reference = standard reader)
+            t = "newtext %s (Some %s)" % (cstr(s["text"]), coq_dtv(o))
         else:
             t = "newepoch %s (Some %s)" % (cz(epoch_micros(s)), coq_dtv(o))
         if t not in seen:
@@ -1205,6 +1309,8 @@ def describe(f):
         inp = "datetime(%s, tz=%s)" % (", ".join(str(x) for x in s["wall"]), json.dumps(s["tz"], sort_keys=True))
     elif s.get("form") == "text":
         inp = repr(s["text"])
+    elif s.get("form") == "isotext":
+        inp = repr(s["text"].encode() if s.get("bytes") else s["text"])
     elif s.get("form") == "now":
         inp = "%s()" % s["num"]
     elif s.get("form"):
@@ -1213,6 +1319,8 @@ def describe(f):
         inp = "?"
     if f["kind"] == "coercion":
         return "timestamp field built from %s is %s, expected (wall clock, offset) %s" % (inp, f["got"], f["want"])
+    if f["kind"] == "foreign-jsonl":
+        return f["why"]
     if f["kind"] == "construction":
         if f.get("why"):
             return f["why"]
@@ -1250,6 +1358,8 @@ def search(ctx, reason):
             fails = unknown(route_checks(ctx, specs))
         if not fails:
             fails = unknown(construction_checks(ctx, specs))
+        if not fails:
+            fails = unknown(foreign_jsonl_checks(ctx, specs))
         if not fails:
             fails = unknown(evolution_checks(ctx, specs, recs))
         if not fails:
@@ -1294,6 +1404,10 @@ def run(ctx):
         "storing text unchanged in a TIMESTAMPTZ column, msgpack/json carrying ints and text unchanged: modelled, validated by execution",
         "Avro: an instant whose UTC form leaves years 1..9999 is written but cannot be read back (OverflowError): counted as "
         "refused, not altered (theorem C13_avro_out_of_range_refused)",
+        "ISO text outside the extended format isoformat() prints (basic and week dates, basic times, comma, 1-5 or more than 6 "
+        "fraction digits, +HHMM / +HH offsets, other separators, lower-case t) and digit-only texts are EXECUTION-ONLY: the "
+        "reference is the standard datetime.fromisoformat on the same text (naive => UTC; refused texts must be refused); the "
+        "Coq parser iso_parse covers only the extended format and is compared on the texts inside it",
         "display setting: the set of flow.record functions that run per operation is observed with a profiler hook on "
         "sample records (generated fact), the mention set by ast over every file under flow/record",
     ]
@@ -1309,7 +1423,7 @@ def run(ctx):
             coerced[f["spec"]["i"]] = tuple(f["got"])
     if report(ctx, split_known(ctx, fails, kf)):
         return
-    for leg in (lambda: route_checks(ctx, specs), lambda: construction_checks(ctx, specs),
+    for leg in (lambda: route_checks(ctx, specs), lambda: construction_checks(ctx, specs), lambda: foreign_jsonl_checks(ctx, specs),
                 lambda: evolution_checks(ctx, specs, recs), lambda: smoke_checks(ctx, specs)):
         if report(ctx, split_known(ctx, leg(), kf)):
             return
